@@ -31,6 +31,8 @@ def case_st(draw):
         if c["tracks"] - starts[-1] > 56:
             c["starts"] = [1 + i * 10 for i in range(8)]
         c["vol"] = draw(st.integers(0, len(c["starts"]) - 1))
+        # the volume table need not list the volumes in disc order: a volume ends where the PHYSICALLY next one begins
+        c["rot"] = draw(st.sampled_from([0, 0, 1, 2, 5]))
     elif kind == "mmb":
         c["slot"] = draw(st.sampled_from([0, 1, 2, 100, 509]))
         c["total"] = draw(st.sampled_from([800, 800, 400]))
@@ -75,12 +77,18 @@ class C17(CheckBase):
             opts = []
             if kind == "opus":
                 tracks, spt = case["tracks"], 18
-                starts = case["starts"]
+                starts = list(case["starts"])
+                rot = case.get("rot", 0) % len(starts)
+                starts = starts[rot:] + starts[:rot]
+                phys = sorted(starts)
                 vi = case["vol"]
+                if rot:
+                    v.classes.append("opus-table-not-in-disc-order")
                 vols_full, vols_clip = [], []
                 boundary = None
                 for i, stt in enumerate(starts):
-                    end = starts[i + 1] if i + 1 < len(starts) else tracks
+                    later = [x for x in phys if x > stt]
+                    end = later[0] if later else tracks
                     vlen = (end - stt) * spt
                     ents = [_ent(b"LOW", 0, 700, 10 + i)]
                     entsc = copy.deepcopy(ents)
